@@ -6,6 +6,10 @@ namespace verif {
     static std::map<std::string, World *> r;
     return r;
   }
+  FatalHandler &fatal_handler() {
+    static FatalHandler h = nullptr;
+    return h;
+  }
 }
 int main(int argc, char **argv) {
   using namespace verif;
